@@ -21,6 +21,15 @@ STR_OPS = (
     "rsplit", "rsplitn", "split_once", "rsplit_once", "split_terminator", "split_ascii_whitespace", "split_inclusive", "split_at", "escape_default", "escape_debug",
     "find", "rfind", "starts_with", "ends_with", "contains", "char_indices", "chars", "eq_ignore_ascii_case",
 )
+# Operations whose result is *not* a sub-slice of / a yes-no answer about their input: one more application of these
+# than was reviewed means some text (or number) is altered on its way - that is a violation of "carried as written".
+# Every other difference from the inventory (fewer applications; a different way of slicing, searching or matching)
+# is something a behaviour-preserving rewrite does as well: it is reported as UNDECIDED (a request to review and
+# regenerate the inventory), never as a violation.
+ALTERING_OPS = {
+    "trim", "trim_start", "trim_end", "trim_matches", "trim_start_matches", "trim_end_matches", "replace", "replacen", "to_lowercase", "to_uppercase",
+    "to_ascii_lowercase", "to_ascii_uppercase", "truncate", "retain", "dedup", "escape_default", "escape_debug", "eq_ignore_ascii_case", "fstr()", "eval_attr()",
+}
 TABLE = os.path.join(os.path.dirname(os.path.dirname(os.path.abspath(__file__))), "tables", "str_ops.json")
 
 
@@ -188,6 +197,10 @@ def check(prog, chk, prefixes, what, ops=None, rule="A14.str-ops"):
             if a != b:
                 diff.append(f"{f.replace('svgdx::', '')}: {b} -> {a}")
                 loc = where.get((cur, op), loc)
+        altering = op in ALTERING_OPS or op.startswith("is_")
+        if have[op] != want[op] and not (altering and have[op] > want[op]):
+            chk.undecided(rule, op, loc, f"{'' if op.endswith('()') else 'str::'}{op}{'' if op.endswith('()') else '()'} is applied {have[op]} time(s) in the functions that handle {what} (reviewed inventory: {want[op]}; {'; '.join(diff)}): fewer applications, or a different way of slicing / searching / matching - which a behaviour-preserving rewrite does as well. Review, then regenerate policy/tables/str_ops.json (tools/gen_str_ops.py).")
+            continue
         chk.ob(
             have[op] == want[op],
             rule,
